@@ -171,6 +171,9 @@ class AsymmetricKey(Key):
             key = cls(private_key=raw, options=options)
         elif isinstance(raw, dict):
             key = cls.import_dict_key(raw, options)
+        elif isinstance(raw, Key):
+            # a key object of another key type
+            raise ValueError("Invalid data for importing key")
         else:
             if options is not None:
                 password = options.pop("password", None)
